@@ -4,6 +4,7 @@ import LenaModel.Model.C07
 import LenaModel.Model.C07Tok
 /-! Model driver for C07.  Values: a leaf is an integer (the class of the Python leaf under `==`),
 a dictionary is the array of its slots over the case's sorted key alphabet, `null` = key absent.
+Every reply `R` below is sent as `{"z": "<R compressed>"}` (see `handleZ`), errors as `{"err": …}`.
 Requests (`n` = size of the alphabet, `falsy` = leaf classes that are false in boolean context):
   {"op":"pair","n":n,"a":D,"b":D,"levels":[..],"falsy":[..]}
       -> {"r":[{"iab":D,"iba":D,"dab":D,"dspec":D,"rec":D,"cab":b,"cba":b,"ciab_a":b,"ciab_b":b}, … per level],"upd":D,"da":depthL a}
@@ -166,4 +167,12 @@ def handle (j : Json) : Json :=
     | _, _, _ => err "bad paths args"
   | _ => err "unknown op"
 
-def main : IO Unit := run handle
+/-- replies are sent as one JSON string field `z` holding the compressed reply (the harness keeps hundreds of
+thousands of replies in memory; a string is ten times smaller than the parsed tree) -/
+def handleZ (j : Json) : Json :=
+  let r := handle j
+  match r.getObjVal? "err" with
+  | .ok _ => r
+  | .error _ => Json.mkObj [("z", Json.str r.compress)]
+
+def main : IO Unit := run handleZ
